@@ -12,7 +12,8 @@ SPEC = dict(
           "Metamorphic runs of the real pipeline: structure vs moved structure (translations within the PDB field x rotations) - bonds, "
           "protein and ion groups, desolvation terms and buried fractions identical to 1e-9; with the program's own hydrogens supplied "
           "(-k) every pKa and determinant identical to 1e-9; with constructed hydrogens within the effect of coordinate rounding. "
-          "The whole scoring phase is modelled as well (Model/Scoring.lean: calculate_pka of one conformation with everything it calls - desolvation, backbone and ion determinants, backbone reorganisation, the pair loop with angle factors, exception rules and both families of pair rules, the iterative scheme, totals, coupling penalties and the removal of determinants towards penalised groups; parameters regenerated from /repo and read back from the compiled driver); its Float instance is compared with the real calculate_pka on every distinct conformation this check runs - counts, partners and order exactly, numbers to 1e-9 (they are bit-identical on the unchanged tree). score reads coordinates only through the environment envOf (squared distances atom-atom / centre-atom / centre-centre and the angle factors): envOf_motion_invariant / score_motion_invariant show that a map of space preserving inner products of difference vectors leaves that environment, hence every number scoring produces, unchanged (hydrogens where they are: supplied hydrogens, or constructed ones before rounding); rigid_isometric shows that every orthogonal matrix followed by a translation - not only the 24 grid rotations - is such a map. A directed family lays the pairs of groups with the most distant centres among all determinant partners along the x axis and moves the structure in 0.15 A steps over 6.3 A, so that a cell boundary of any absolute grid passes between them.",
+          "The whole scoring phase is modelled as well (Model/Scoring.lean: calculate_pka of one conformation with everything it calls - desolvation, backbone and ion determinants, backbone reorganisation, the pair loop with angle factors, exception rules and both families of pair rules, the iterative scheme, totals, coupling penalties and the removal of determinants towards penalised groups; parameters regenerated from /repo and read back from the compiled driver); its Float instance is compared with the real calculate_pka on every distinct conformation this check runs - counts, partners and order exactly, numbers to 1e-9 (they are bit-identical on the unchanged tree). score reads coordinates only through the environment envOf (squared distances atom-atom / centre-atom / centre-centre and the angle factors): envOf_motion_invariant / score_motion_invariant show that a map of space preserving inner products of difference vectors leaves that environment, hence every number scoring produces, unchanged (hydrogens where they are: supplied hydrogens, or constructed ones before rounding); rigid_isometric shows that every orthogonal matrix followed by a translation - not only the 24 grid rotations - is such a map. A directed family lays the pairs of groups with the most distant centres among all determinant partners along the x axis and moves the structure in 0.15 A steps over 6.3 A, so that a cell boundary of any absolute grid passes between them. "
+          "centreOf_affine: the centre of a group (set_center: mean of a non-empty atom list, Model/Setup.lean) commutes with every affine map, so the centres envOf reads are the moved centres.",
     note="Partial: 'no more than the effect of rounding constructed hydrogens' is a quantitative Lipschitz statement that is not proved; it "
          "is measured (0.02 pKa units allowed). Selections from a neighbour list that is not a singleton (element [0] of the bonded "
          "carbons of a terminal oxygen) depend on bond-list order, i.e. on the frame: known finding D10, not repaired because the fix "
